@@ -22,6 +22,107 @@ func init() {
 	})
 }
 
+// lruRep: how a list element carries its payload. bare: Element.Value is the stored value and the
+// key is found by scanning the map for the element; entry: Element.Value is a *T{key, value}
+// built at insertion (discovered from the insertion site of Store), the value is read from / assigned
+// to its value field and the key of a removed element is read from its key field.
+type lruRep struct {
+	entry            *types.Named
+	valIdx, keyIdx   int
+	valName, keyName string
+}
+
+func (r lruRep) valSuffix() string {
+	if r.entry == nil {
+		return ".Value"
+	}
+	return ".Value.(*" + shortType(r.entry.String()) + ")." + r.valName
+}
+
+func (r lruRep) keySuffix() string {
+	if r.entry == nil {
+		return ""
+	}
+	return ".Value.(*" + shortType(r.entry.String()) + ")." + r.keyName
+}
+
+func lruRepOf(p *Prog, tn string) lruRep {
+	rep := lruRep{valIdx: -1, keyIdx: -1}
+	fn := p.Method("valid", tn, "Store")
+	if fn == nil || len(fn.Params) < 3 {
+		return rep
+	}
+	for _, b := range fn.Blocks {
+		for _, ins := range b.Instrs {
+			call, ok := ins.(*ssa.Call)
+			if !ok {
+				continue
+			}
+			if nm := calleeName(&call.Call); nm != "(*container/list.List).PushFront" && nm != "(*container/list.List).PushBack" {
+				continue
+			}
+			mi, ok := call.Call.Args[1].(*ssa.MakeInterface)
+			if !ok {
+				continue
+			}
+			al, ok := mi.X.(*ssa.Alloc)
+			if !ok {
+				continue
+			}
+			named := namedOf(al.Type())
+			if named == nil {
+				continue
+			}
+			stt, ok := named.Underlying().(*types.Struct)
+			if !ok {
+				continue
+			}
+			for _, r := range refs(al) {
+				fa, ok := r.(*ssa.FieldAddr)
+				if !ok {
+					continue
+				}
+				for _, rr := range refs(fa) {
+					st, ok := rr.(*ssa.Store)
+					if !ok || st.Addr != ssa.Value(fa) {
+						continue
+					}
+					switch st.Val {
+					case ssa.Value(fn.Params[2]):
+						rep.valIdx, rep.valName = fa.Field, stt.Field(fa.Field).Name()
+					case ssa.Value(fn.Params[1]):
+						rep.keyIdx, rep.keyName = fa.Field, stt.Field(fa.Field).Name()
+					}
+				}
+			}
+			if rep.valIdx >= 0 && rep.keyIdx >= 0 {
+				rep.entry = named
+			}
+		}
+	}
+	return rep
+}
+
+// entryFields: av is (an interface holding) a pointer to a freshly built entry: its value and key
+// fields as keys.
+func (r lruRep) entryFields(av AVal) (val, key string, ok bool) {
+	if r.entry == nil {
+		return "", "", false
+	}
+	if ifc, isI := av.(Ifc); isI {
+		av = ifc.V
+	}
+	pt, isP := av.(Ptr)
+	if !isP || pt.C.Fields == nil {
+		return "", "", false
+	}
+	vc, kc := pt.C.Fields[r.valIdx], pt.C.Fields[r.keyIdx]
+	if vc == nil || kc == nil {
+		return "", "", false
+	}
+	return keyOf(vc.V), keyOf(kc.V), true
+}
+
 type lruEnv struct {
 	w     *WalkEnv
 	delta int
@@ -94,6 +195,12 @@ func runC09(c *Ctx) {
 		return
 	}
 	tn := named.Obj().Name()
+	rep := lruRepOf(p, tn)
+	if rep.entry != nil {
+		c.Extra["lru_element_payload"] = "entry struct " + shortType(rep.entry.String()) + "{" + rep.keyName + ", " + rep.valName + "}"
+	} else {
+		c.Extra["lru_element_payload"] = "the stored value itself"
+	}
 	method := func(n string) *ssa.Function { return p.Method("valid", tn, n) }
 	explore := func(fn *ssa.Function) []Trace {
 		le := newLRUEnv(p)
@@ -139,8 +246,14 @@ func runC09(c *Ctx) {
 						mapIns = append(mapIns, e)
 					}
 				case "store-cell":
-					if strings.HasSuffix(keyOf(e.Args[0]), ".Value") && keyOf(e.Args[1]) == "value" {
+					if strings.HasSuffix(keyOf(e.Args[0]), rep.valSuffix()) && keyOf(e.Args[1]) == "value" {
 						valueAssigned = true
+					}
+					// entry payload replaced as a whole by a fresh entry for the same key with the new value
+					if rep.entry != nil && strings.HasSuffix(keyOf(e.Args[0]), ".Value") {
+						if vk, kk, ok := rep.entryFields(e.Args[1]); ok && vk == "value" && kk == "key" {
+							valueAssigned = true
+						}
 					}
 				}
 			}
@@ -177,8 +290,12 @@ func runC09(c *Ctx) {
 			if !okIns {
 				pair = append(pair, "the list element returned by the insertion is not stored in the map under the operation's key")
 			}
-			if keyOf(pushes[0].Args[2]) != "value" {
-				pair = append(pair, "the inserted list element does not carry the stored value")
+			if rep.entry == nil {
+				if keyOf(pushes[0].Args[2]) != "value" {
+					pair = append(pair, "the inserted list element does not carry the stored value")
+				}
+			} else if vk, kk, ok := rep.entryFields(pushes[0].Args[2]); !ok || vk != "value" || kk != "key" {
+				pair = append(pair, "the inserted list element does not carry an entry holding the operation's key and the stored value")
 			}
 			// capacity test
 			if len(removes) > 1 {
@@ -255,7 +372,7 @@ func runC09(c *Ctx) {
 					if b, ok := traceBool(t, rt.E[1]); ok && !b {
 						bad = append(bad, "a hit reports ok=false")
 					}
-					if !strings.HasSuffix(keyOf(rt.E[0]), ".Value") {
+					if !strings.HasSuffix(keyOf(rt.E[0]), rep.valSuffix()) {
 						bad = append(bad, "a hit does not return the element's value: "+keyOf(rt.E[0]))
 					}
 				}
@@ -301,6 +418,7 @@ func traceBool(t Trace, v AVal) (bool, bool) {
 
 func runC09Remove(c *Ctx, tn string) {
 	p := c.P
+	rep := lruRepOf(p, tn)
 	// removals (list.Remove / builtin delete on the node map) may only occur in one private helper
 	var helpers []*ssa.Function
 	for _, fn := range p.Funcs {
@@ -322,79 +440,95 @@ func runC09Remove(c *Ctx, tn string) {
 			helpers = append(helpers, fn)
 		}
 	}
-	if len(helpers) != 1 {
-		var ns []string
-		for _, h := range helpers {
-			ns = append(ns, fnName(h))
-		}
-		c.Bad("C09-PAIR", tn, "remove-sites", token.NoPos, fmt.Sprintf("removal from the list/map must live in exactly one helper, found %v", ns))
+	if len(helpers) == 0 {
+		c.Bad("C09-PAIR", tn, "remove-sites", token.NoPos, "no method removes from the list and the map")
 		return
 	}
-	h := helpers[0]
-	le := newLRUEnv(p)
-	c.Funcs[fnName(h)] = true
+	// usually one private helper; when it has been inlined into its callers every function that
+	// removes is held to the same contract on each of its removing paths
 	var pairBad, cbBad []string
 	n := 0
-	for _, t := range le.w.In.Explore(h, symArgs(h), 6000) {
-		if t.Cut != "" || t.Panic != "" {
-			c.Unk("C09-PAIR", fnName(h), "paths", h.Pos(), t.Cut+t.Panic)
-			continue
+	var firstPos token.Pos
+	names := []string{}
+	for _, h := range helpers {
+		names = append(names, fnName(h))
+		if firstPos == token.NoPos {
+			firstPos = h.Pos()
 		}
-		if t.Converged {
-			continue
-		}
-		n++
-		c.Sites++
-		removes, deletes, cbs := 0, 0, 0
-		var delKey, cbKey, cbVal, rmElem string
-		for _, e := range t.Events {
-			switch e.Kind {
-			case "list":
-				if op, _ := isCstStr(e.Args[0]); op == "Remove" {
-					removes++
-					rmElem = keyOf(e.Args[1])
+		le := newLRUEnv(p)
+		c.Funcs[fnName(h)] = true
+		for _, t := range le.w.In.Explore(h, symArgs(h), 6000) {
+			if t.Cut != "" || t.Panic != "" {
+				c.Unk("C09-PAIR", fnName(h), "paths", h.Pos(), t.Cut+t.Panic)
+				continue
+			}
+			if t.Converged {
+				continue
+			}
+			removes, deletes, cbs := 0, 0, 0
+			var delKey, cbKey, cbVal, rmElem string
+			for _, e := range t.Events {
+				switch e.Kind {
+				case "list":
+					if op, _ := isCstStr(e.Args[0]); op == "Remove" {
+						removes++
+						rmElem = keyOf(e.Args[1])
+					}
+				case "mapdelete":
+					deletes++
+					delKey = keyOf(e.Args[1])
+				case "callback":
+					cbs++
+					if len(e.Args) >= 3 {
+						cbKey, cbVal = keyOf(e.Args[1]), keyOf(e.Args[2])
+					}
 				}
-			case "mapdelete":
-				deletes++
-				delKey = keyOf(e.Args[1])
-			case "callback":
-				cbs++
-				if len(e.Args) >= 3 {
-					cbKey, cbVal = keyOf(e.Args[1]), keyOf(e.Args[2])
+			}
+			if removes == 0 && deletes == 0 && cbs == 0 && len(helpers) > 1 {
+				continue // a path of an operation that removes nothing (inlined form only)
+			}
+			n++
+			c.Sites++
+			if removes != 1 || deletes != 1 {
+				pairBad = append(pairBad, fmt.Sprintf("a path removes %d list elements and %d map entries (want 1 and 1)", removes, deletes))
+			}
+			// entry payload: the map key deleted is the key kept in the removed element's own entry
+			if rep.entry != nil && removes == 1 && deletes == 1 && delKey != rmElem+rep.keySuffix() {
+				pairBad = append(pairBad, "the key deleted from the map ("+delKey+") is not the key kept in the removed element's entry ("+rmElem+rep.keySuffix()+")")
+			}
+			if len(helpers) == 1 && rmElem != "node" && removes == 1 && len(h.Params) > 1 && rmElem != h.Params[1].Name() {
+				pairBad = append(pairBad, "the element removed from the list is not the helper's argument: "+rmElem)
+			}
+			cbSet := -1
+			for k, v := range t.PC {
+				if strings.HasPrefix(k, "eq(") && strings.Contains(k, "deleteCallBackFn") && strings.Contains(k, "nil") {
+					cbSet = 1 - v
 				}
 			}
-		}
-		if removes != 1 || deletes != 1 {
-			pairBad = append(pairBad, fmt.Sprintf("a path removes %d list elements and %d map entries (want 1 and 1)", removes, deletes))
-		}
-		if rmElem != "node" && removes == 1 && len(h.Params) > 1 && rmElem != h.Params[1].Name() {
-			pairBad = append(pairBad, "the element removed from the list is not the helper's argument: "+rmElem)
-		}
-		cbSet := -1
-		for k, v := range t.PC {
-			if strings.HasPrefix(k, "eq(") && strings.Contains(k, "deleteCallBackFn") && strings.Contains(k, "nil") {
-				cbSet = 1 - v
+			switch {
+			case cbSet == 1 && cbs != 1:
+				cbBad = append(cbBad, fmt.Sprintf("callback set but invoked %d times on a removing path", cbs))
+			case cbSet == 0 && cbs != 0:
+				cbBad = append(cbBad, "callback invoked although nil")
+			case cbSet == -1:
+				cbBad = append(cbBad, "a removing path never tests the callback: evictions/deletes are not reported")
 			}
-		}
-		switch {
-		case cbSet == 1 && cbs != 1:
-			cbBad = append(cbBad, fmt.Sprintf("callback set but invoked %d times on a removing path", cbs))
-		case cbSet == 0 && cbs != 0:
-			cbBad = append(cbBad, "callback invoked although nil")
-		case cbSet == -1:
-			cbBad = append(cbBad, "the helper never tests the callback: evictions/deletes are not reported")
-		}
-		if cbs == 1 {
-			if cbKey != delKey {
-				cbBad = append(cbBad, "callback key "+cbKey+" differs from the key deleted from the map "+delKey)
-			}
-			if !strings.HasSuffix(cbVal, ".Value") || !strings.HasPrefix(cbVal, strings.TrimPrefix(rmElem, "")) && !strings.Contains(cbVal, rmElem) {
-				cbBad = append(cbBad, "callback value is not the removed element's value: "+cbVal)
+			if cbs == 1 {
+				if cbKey != delKey {
+					cbBad = append(cbBad, "callback key "+cbKey+" differs from the key deleted from the map "+delKey)
+				}
+				if !strings.HasSuffix(cbVal, rep.valSuffix()) || !strings.HasPrefix(cbVal, strings.TrimPrefix(rmElem, "")) && !strings.Contains(cbVal, rmElem) {
+					cbBad = append(cbBad, "callback value is not the removed element's value: "+cbVal)
+				}
 			}
 		}
 	}
-	c.Check(len(pairBad) == 0 && n > 0, "C09-PAIR", fnName(h), "remove", h.Pos(), fmt.Sprintf("%d paths: one list removal, one map delete each", n), uniqJoin(pairBad, 3))
-	c.Check(len(cbBad) == 0 && n > 0, "C09-CB", fnName(h), "callback", h.Pos(), "exactly once with the removed key and value when set", uniqJoin(cbBad, 3))
+	where := names[0]
+	if len(names) > 1 {
+		where = tn + ".removal-sites"
+	}
+	c.Check(len(pairBad) == 0 && n > 0, "C09-PAIR", where, "remove", firstPos, fmt.Sprintf("%d removing paths in %v: one list removal, one map delete each", n, names), uniqJoin(pairBad, 3))
+	c.Check(len(cbBad) == 0 && n > 0, "C09-CB", where, "callback", firstPos, "exactly once with the removed key and value when set", uniqJoin(cbBad, 3))
 	// the public Delete reaches the helper only on a hit; capacity field immutable
 	named, mu := cacheType(p)
 	_ = mu
@@ -686,14 +820,45 @@ func runC09Config(c *Ctx, named *types.Named) {
 		}
 		c.Check(len(bad) == 0 && n > 0, "C09-CONFIG", tn, "callback-setter", token.NoPos, fmt.Sprintf("%d store(s) of the caller's function", n), uniqJoin(append(bad, "no setter found"), 2))
 	}
-	// ---- identity lookup in the removal helper
+	// ---- identity lookup in the removal helper (or, when it was inlined, in each method that deletes from the map)
+	var dels []*ssa.Function
 	if del := p.Method("valid", tn, "delete"); del != nil {
+		dels = append(dels, del)
+	} else {
+		for _, fn := range p.Funcs {
+			if recvNamed(fn) != named {
+				continue
+			}
+			for _, b := range fn.Blocks {
+				for _, ins := range b.Instrs {
+					if call, ok := ins.(*ssa.Call); ok && calleeName(&call.Call) == "builtin.delete" {
+						dup := false
+						for _, d := range dels {
+							dup = dup || d == fn
+						}
+						if !dup {
+							dels = append(dels, fn)
+						}
+					}
+				}
+			}
+		}
+	}
+	for _, del := range dels {
 		c.Sites++
 		var bad []string
 		nCmp := 0
 		var node ssa.Value
-		if len(del.Params) >= 2 {
+		if len(del.Params) >= 2 && del.Name() == "delete" {
 			node = del.Params[1]
+		}
+		removedElems := map[ssa.Value]bool{}
+		for _, b := range del.Blocks {
+			for _, ins := range b.Instrs {
+				if call, ok := ins.(*ssa.Call); ok && calleeName(&call.Call) == "(*container/list.List).Remove" && len(call.Call.Args) == 2 {
+					removedElems[call.Call.Args[1]] = true
+				}
+			}
 		}
 		// the search may have been extracted into an unexported helper that receives the element
 		searchFn := del
@@ -736,15 +901,24 @@ func runC09Config(c *Ctx, named *types.Named) {
 					pt, ok := v.Type().(*types.Pointer)
 					return ok && isNamed(pt.Elem(), "container/list", "Element")
 				}
-				if !(isElem(bo.X) && isElem(bo.Y) && (bo.X == node || bo.Y == node)) {
+				sameNode := bo.X == node || bo.Y == node
+				if node == nil {
+					sameNode = removedElems[bo.X] || removedElems[bo.Y]
+				}
+				if !(isElem(bo.X) && isElem(bo.Y) && sameNode) {
 					bad = append(bad, "the key of the element being removed is searched by comparing "+shortType(bo.X.Type().String())+" values, not by element identity: with two keys holding equal values the wrong key is dropped from the map")
 				}
 			}
 		}
-		if nCmp == 0 {
+		rep := lruRepOf(p, tn)
+		if nCmp == 0 && rep.entry == nil {
 			bad = append(bad, "no search for the removed element's key found")
 		}
-		c.Check(len(bad) == 0, "C09-CONFIG", fnName(del), "identity", del.Pos(), "key found by element identity", uniqJoin(bad, 2))
+		good := "key found by element identity"
+		if nCmp == 0 && rep.entry != nil {
+			good = "key read from the removed element's own entry (checked by C09-PAIR remove)"
+		}
+		c.Check(len(bad) == 0, "C09-CONFIG", fnName(del), "identity", del.Pos(), good, uniqJoin(bad, 2))
 	}
 }
 
@@ -859,6 +1033,7 @@ func runC09Live(c *Ctx, named *types.Named) {
 	}
 	c.Check(len(bad) == 0 && n > 0, "C09-LIVE", named.Obj().Name(), "live-map", token.NoPos, fmt.Sprintf("%d map mutations, each on the live map", n), uniqJoin(bad, 2))
 	// ---- Load returns the looked-up element's value
+	rep := lruRepOf(p, named.Obj().Name())
 	if ld := p.Method("valid", named.Obj().Name(), "Load"); ld != nil {
 		c.Sites++
 		var bad2 []string
@@ -892,11 +1067,29 @@ func runC09Live(c *Ctx, named *types.Named) {
 					}
 					return
 				}
-				if fa, ok := x.X.(*ssa.FieldAddr); ok && fieldAddrName(fa) == "Value" {
+				isFoundValue := func(fa *ssa.FieldAddr) bool {
+					if fieldAddrName(fa) != "Value" {
+						return false
+					}
 					if ex, ok := fa.X.(*ssa.Extract); ok {
 						if lk, ok := ex.Tuple.(*ssa.Lookup); ok && len(ld.Params) >= 2 && lk.Index == ld.Params[1] {
-							nv++
-							return
+							return true
+						}
+					}
+					return false
+				}
+				if fa, ok := x.X.(*ssa.FieldAddr); ok && rep.entry == nil && isFoundValue(fa) {
+					nv++
+					return
+				}
+				// entry payload: (found.Value).(*entry).value
+				if fa, ok := x.X.(*ssa.FieldAddr); ok && rep.entry != nil && fa.Field == rep.valIdx && namedOf(fa.X.Type()) == rep.entry {
+					if ta, ok := fa.X.(*ssa.TypeAssert); ok {
+						if l2, ok := ta.X.(*ssa.UnOp); ok && l2.Op == token.MUL {
+							if fa2, ok := l2.X.(*ssa.FieldAddr); ok && isFoundValue(fa2) {
+								nv++
+								return
+							}
 						}
 					}
 				}
